@@ -247,6 +247,18 @@ def sessions_for(tier, rng):
         else:
             pkt = S.big_message(rng, True, n)
         add("long", [rand_agent(rng)] + hostile_ops(rng, pkt, light=True))
+    # 3b. requests with very many unknown comprehension-required attributes (around and beyond the 256 ids the
+    #     UNKNOWN-ATTRIBUTES builder can carry), answered with the 420 builder into large and small buffers
+    for _ in range(30 if quick else 300):
+        n_unk = rng.choice([1, 200, 255, 256, 257, 258, 300, 301, 600, 1000])
+        compat = rng.choice([0, 1, 1, 2])           # incl. cookie-less RFC 3489 (odd counts take the padding path)
+        cookie = compat != 0 or rng.random() < 0.5
+        body = b"".join(struct.pack(">HH", 0x0040 + (i % 0x3000), 0) for i in range(n_unk))
+        pkt = struct.pack(">HH", 1, len(body)) + S.rand_txid(rng, cookie) + body
+        lines = [agent_line(compat, rng.choice([0, S.F_IGN])), f"stun val {S.hx(pkt)} none"]
+        for cap in rng.sample([20, 100, 532, 540, 1300, 1300, 4000, 9000], 3):
+            lines.append(f"stun unk {cap}")
+        add("many-unknown-attributes", lines)
     # 4. reply construction for all output sizes 0..1300
     allcaps = list(range(0, 1301))
     if quick:
